@@ -136,9 +136,13 @@ func cmdCheck(args []string) int {
 
 	var results []*FuncResult
 	var fnKeys []string
+	frameOnly := map[string]bool{}
 	for _, fk := range pc.Functions {
-		if strings.HasPrefix(fk, "tagged:") {
+		if strings.HasPrefix(fk, "tagged:") || strings.HasPrefix(fk, "frames:") {
 			// every function of the package (suffix match) whose contract has a clause tagged with this property
+			// ("frames:": only the frame obligations of those functions are part of this check; their
+			// other obligations belong to the checks of the properties their clauses are tagged with)
+			isFrames := strings.HasPrefix(fk, "frames:")
 			suffix := fk[7:]
 			var ks []string
 			for key, ct := range e.db.Contracts {
@@ -159,6 +163,9 @@ func cmdCheck(args []string) int {
 				if k != last {
 					fnKeys = append(fnKeys, k)
 					last = k
+					if isFrames {
+						frameOnly[k] = true
+					}
 				}
 			}
 			continue
@@ -174,6 +181,18 @@ func cmdCheck(args []string) int {
 		for _, k := range keys {
 			results = append(results, e.VerifyFunction(k, prop, true))
 		}
+	}
+	for _, r := range results {
+		if !frameOnly[r.Key] {
+			continue
+		}
+		var keep []*Obligation
+		for _, o := range r.Obls {
+			if strings.HasPrefix(o.Kind, "frame") || o.Kind == "nonvacuous" {
+				keep = append(keep, o)
+			}
+		}
+		r.Obls = keep
 	}
 	e.solveAll(results, false)
 
@@ -308,6 +327,17 @@ func cmdCheck(args []string) int {
 		os.WriteFile(filepath.Join(verifDir, "ledger", prop+".json"), data, 0o644)
 		fmt.Println("ledger written:", len(clauseNames), "clause obligations")
 	} else if haveLedger {
+		// every ledgered function must still be under contract for this property (a deleted sweep
+		// line or tag would otherwise silently shrink the check)
+		have := map[string]bool{}
+		for _, r := range results {
+			have[r.Key] = true
+		}
+		for _, fn := range ledger.Functions {
+			if !have[fn] {
+				addViolation(fn+"#under-contract", "ledgered function is no longer under contract for this property (contract, sweep line or tag removed, or function removed/renamed)", nil, nil)
+			}
+		}
 		for _, name := range ledger.Obligations {
 			if _, ok := aggs[name]; !ok {
 				if _, k := knownBy[name]; k {
@@ -480,20 +510,20 @@ func cmdCheck(args []string) int {
 		"property_id": prop, "tier": tier, "seed": seed, "level": level,
 		"coverage": map[string]interface{}{
 			"obligations": total, "discharged": discharged,
-			"checker_cmd":               fmt.Sprintf("/verif/check %s %s  (govc: VCs from go/ssa of %s, -tags verif; portfolio z3-new/cvc5/z3, %.0fs per obligation%s)", prop, tier, repo, timeout, map[bool]string{true: ", two-solver agreement", false: ""}[e.solver.twoSolver]),
-			"trusted_base":              tb,
-			"functions_under_contract":  fnList,
+			"checker_cmd":                 fmt.Sprintf("/verif/check %s %s  (govc: VCs from go/ssa of %s, -tags verif; portfolio z3-new/cvc5/z3, %.0fs per obligation%s)", prop, tier, repo, timeout, map[bool]string{true: ", two-solver agreement", false: ""}[e.solver.twoSolver]),
+			"trusted_base":                tb,
+			"functions_under_contract":    fnList,
 			"contract_clause_obligations": len(clauseNames),
-			"discharged_by_backend":     solverBy,
-			"solver_stats_this_run":     solverTimes,
-			"samples":                   samples,
-			"known_findings":            knownHit,
-			"undecided_allowed":         undecidedAllowed,
-			"bounded":                   bounded,
-			"finding_replays":           replays,
-			"lemmas":                    map[string]int{"total": lemmaTotal, "proved": lemmaOK},
-			"integers":                  "Go integers are SMT Int with explicit wrap-around at the type's width (not mathematical); spec integers are mathematical",
-			"explanation":               "every obligation generated from the current source of the listed functions is discharged (negation unsat) by an SMT solver; obligations listed under known_findings/undecided_allowed are excluded from the counts",
+			"discharged_by_backend":       solverBy,
+			"solver_stats_this_run":       solverTimes,
+			"samples":                     samples,
+			"known_findings":              knownHit,
+			"undecided_allowed":           undecidedAllowed,
+			"bounded":                     bounded,
+			"finding_replays":             replays,
+			"lemmas":                      map[string]int{"total": lemmaTotal, "proved": lemmaOK},
+			"integers":                    "Go integers are SMT Int with explicit wrap-around at the type's width (not mathematical); spec integers are mathematical",
+			"explanation":                 "every obligation generated from the current source of the listed functions is discharged (negation unsat) by an SMT solver; obligations listed under known_findings/undecided_allowed are excluded from the counts",
 		},
 		"assumptions": assumptions, "wall_s": time.Since(t0).Seconds(), "violations": violations,
 	}
@@ -629,7 +659,13 @@ func runTemplate(repo, modulePath, tmpl string, args []string) (int, string) {
 		os.WriteFile(filepath.Join(dir, "go.sum"), sum, 0o644)
 	}
 	env := append(os.Environ(), "GOFLAGS=-mod=mod", "GOPROXY=off")
-	build := exec.Command("go", "build", "-o", filepath.Join(dir, "replay.bin"), ".")
+	buildArgs := []string{"build", "-o", filepath.Join(dir, "replay.bin")}
+	if strings.Contains(string(src), "//verif:race") {
+		// the template asks for the race detector: a detected race ends the program with status 1
+		buildArgs = append(buildArgs, "-race")
+		env = append(env, "GORACE=exitcode=1 halt_on_error=1", "CGO_ENABLED=1")
+	}
+	build := exec.Command("go", append(buildArgs, ".")...)
 	build.Dir = dir
 	build.Env = env
 	if out, err := build.CombinedOutput(); err != nil {
